@@ -30,6 +30,7 @@ type StopConn struct {
 	Deadline int    `json:"deadline_us,omitempty"`
 	Traffic  int    `json:"traffic,omitempty"`  // bytes the peer sends
 	Race     string `json:"race,omitempty"`     // what races with Stop: "" | connect (arrives around Stop) | peerclose | appclose | write
+	UnixDial bool   `json:"unix_dial,omitempty"` // kind dial: over AF_UNIX, where the connect completes at once
 }
 
 // StopCase is a case of the stop scenario.
@@ -79,6 +80,11 @@ func genStopCase(r *simrt.Rand, tier string) *StopCase {
 		cn.Sendfile = r.Bool(0.15)
 		cn.Race = []string{"", "", "connect", "peerclose", "appclose", "write"}[r.Intn(6)]
 		c.Conns = append(c.Conns, cn)
+	}
+	for i := range c.Conns {
+		if c.Conns[i].Kind == "dial" && r.Bool(0.3) {
+			c.Conns[i].UnixDial = true
+		}
 	}
 	if lowFiles {
 		// descriptor numbers start at 1000 (epoll, eventfd, then sockets): some of this run's
@@ -165,12 +171,19 @@ func engineGoroutine(desc string) bool {
 }
 
 func runStop(t *testing.T, ci interface{}, trace bool) *common.Outcome {
+	return runStopAs(t, ci, trace, "C18")
+}
+
+// runStopAs runs the stop scenario for property prop: C18 judges termination and reclamation, C03
+// (part 'stoprace') the lifecycle clauses while Stop races dials and closes - one close notification,
+// never without an open notification, and one outcome per asynchronous dial.
+func runStopAs(t *testing.T, ci interface{}, trace bool, prop string) *common.Outcome {
 	c := ci.(*StopCase)
 	o := &common.Outcome{}
 	var w *World
 	res := simrt.Run(t, c.Sched.Config(trace), func() {
 		defer simrt.Finish()
-		w = NewWorld(t, o, "C18", c.Eng, c.K, c.Sched)
+		w = NewWorld(t, o, prop, c.Eng, c.K, c.Sched)
 		if err := w.Start(); err != nil {
 			o.Infra = "engine start: " + err.Error()
 			return
@@ -237,7 +250,19 @@ func runStop(t *testing.T, ci interface{}, trace bool) *common.Outcome {
 					w.G.AddConn(nc)
 				case "dial", "dialpending":
 					addr := fmt.Sprintf("127.0.0.1:%d", 7200+i)
-					if plan.Kind == "dialpending" {
+					dnet := "tcp"
+					if plan.Kind == "dial" && plan.UnixDial {
+						// an AF_UNIX connect completes at once: no pending dial callback in the poller
+						dnet, addr = "unix", fmt.Sprintf("/sim/stop-dial-%d.sock", i)
+						if ln, err := w.K.Listen(&kernel.Addr{Net: "unix", Name: addr}); err == nil {
+							pending++
+							simrt.GoNamed("peer-accept", func() {
+								defer func() { pending-- }()
+								simrt.WaitStuck("peer-accept", time.Second, func() bool { return ln.AcceptReady() })
+								ln.Accept()
+							})
+						}
+					} else if plan.Kind == "dialpending" {
 						w.K.Blackhole["tcp|"+addr] = true
 					} else if ln, err := w.K.Listen(&kernel.Addr{Net: "tcp", IP: [4]byte{127, 0, 0, 1}, Port: 7200 + i}); err == nil {
 						pending++
@@ -250,7 +275,7 @@ func runStop(t *testing.T, ci interface{}, trace bool) *common.Outcome {
 					cs = w.Expect(addr, nil)
 					cs.Dialed = true
 					csd := cs
-					w.G.DialAsync("tcp", addr, func(nc *nbio.Conn, err error) {
+					dialErr := w.G.DialAsync(dnet, addr, func(nc *nbio.Conn, err error) {
 						csd.DialCB++
 						csd.DialErr = err
 						if err == nil && nc != nil {
@@ -263,6 +288,9 @@ func runStop(t *testing.T, ci interface{}, trace bool) *common.Outcome {
 							onOpen(csd)
 						}
 					})
+					if dialErr != nil {
+						csd.DialCB = -1000 // synchronous error return: no callback and no notification may follow
+					}
 				}
 				if cs == nil {
 					continue
@@ -329,9 +357,11 @@ func runStop(t *testing.T, ci interface{}, trace bool) *common.Outcome {
 			w.Stopped = true
 			if c.Shutdown {
 				ctx, cancel := context.WithCancel(context.Background())
+				w.Stopping = true
 				w.G.Shutdown(ctx)
 				cancel()
 			} else {
+				w.Stopping = true
 				w.G.Stop()
 			}
 			stopped = true
@@ -353,6 +383,22 @@ func runStop(t *testing.T, ci interface{}, trace bool) *common.Outcome {
 		}
 		w.StopAll()
 		simrt.Quiesce(5 * time.Second)
+		// "an asynchronous dial reports its outcome exactly once": a dial that DialAsync accepted
+		// (nil return) has had its callback by now - with the connection, or with the error that
+		// Stop (or anything else) ended it with - and a dial it refused has none
+		for _, cs := range w.Conns {
+			if !cs.Dialed {
+				continue
+			}
+			switch {
+			case cs.DialCB < 0 && cs.DialCB != -1000:
+				w.Fail("C03", "dial-callback-after-error-return", stopClass(c), "connection %d (%s): DialAsync returned an error and its callback was invoked nevertheless", cs.ID, cs.Key)
+			case cs.DialCB == 0:
+				w.Fail("C03", "dial-callback-missing", stopClass(c), "connection %d (%s): DialAsync returned nil but its callback has never been invoked, although the engine has been stopped and the world is quiescent (close notifications for it: %d)", cs.ID, cs.Key, cs.Closes)
+			case cs.DialCB > 1:
+				w.Fail("C03", "dial-callback-twice", stopClass(c), "connection %d (%s): the dial callback was invoked %d times", cs.ID, cs.Key, cs.DialCB)
+			}
+		}
 		// a later connect is refused
 		if w.Cfg.Network != "udp" && w.K.Listening(w.KAddr) {
 			w.Fail("C18", "still-listening", stopClass(c), "the engine's listener still accepts connections after Stop returned")
